@@ -129,7 +129,7 @@ impl<'a> Parser<'a> {
 
     pub(crate) fn eat(&mut self, skip: Skip, expected: &[Syntax]) -> Result<bool> {
         for (n, k) in expected.iter().enumerate() {
-            match self.get(n) {
+            match self.get(skip.0 + n) {
                 Some(t) if t.kind == *k => {}
                 _ => return Ok(false),
             }
